@@ -403,8 +403,10 @@ static std::string fv_job(int n, Mk&& mk)
                 const E lv = mk(n * 7 + round);
                 v.push_back(lv);
                 v.pop_back();
-                v.insert(lv);
+#ifndef FV_NO_INSERT_LVALUE
+                v.insert(lv); // (does not compile on a tree whose insert(const T&) is broken: lib/fvrun.py probes it)
                 v.pop_back();
+#endif
                 v.insert(mk(n * 7 + round + 1));
                 v.pop_back();
                 v.emplace(v.begin(), mk(5));
